@@ -10,5 +10,5 @@ cp -r /verif/sim/zsim $S/zsim
 cd $S
 sed -i 's/^go 1.15/go 1.21/' go.mod
 go mod edit -require=github.com/anishathalye/porcupine@v1.3.0
-go build -o $S/simworker ./zsim/cmd/simworker
-go build -tags binary_log -o $S/simworker.bin ./zsim/cmd/simworker
+go build -ldflags "-X github.com/rs/zerolog/zsim.hosted=1" -o $S/simworker ./zsim/cmd/simworker
+go build -ldflags "-X github.com/rs/zerolog/zsim.hosted=1" -tags binary_log -o $S/simworker.bin ./zsim/cmd/simworker
